@@ -4,6 +4,7 @@ import random
 
 import numpy as np
 
+import adevdet2 as D
 import common
 import impl
 import sexp
@@ -12,7 +13,10 @@ RULE = ("generated deterministic JAX programs (arithmetic, transcendental, index
         "where / clip / abs with integer and boolean intermediates, dtype casts, complex intermediates, lax.cond with either branch, scan / "
         "fori_loop with integer counters) over scalar, vector, matrix and pytree arguments: jvp_estimate vs jax.jvp, grad_estimate vs "
         "jax.grad, estimate vs the function value; straight-line programs also vs the Lean interpreter model; non-trivial = every (program, "
-        "argument); distinct by program text and argument shapes")
+        "argument); distinct by program text and argument shapes; random programs of the richer model language (Model/AdevDet2.lean: "
+        "float / discrete values, zero-tangent and int inputs, select / comparisons / floor / int arithmetic, mixed-output jitted "
+        "helpers, scan with (counter, value) carries, cond with sub-programs, nested) vs the Lean interpreter model under Cfg.code AND "
+        "vs jax.jvp, plus the proved counterexample witnesses of the wrong fast-path conditions")
 
 
 def corpus():
@@ -150,14 +154,158 @@ def straight_line_model(G, ctx, rng):
     ctx.count("straight-line-model")
 
 
+# ----------------------------------------------------------------------------- richer language (Model/AdevDet2.lean)
+
+
+def _model2(cfg, prog, out, env_s):
+    r = sexp.loads(common.driver_run([sexp.dumps(["adev-det2", cfg, D.to_sexp(prog), out, env_s])])[0])
+    if r[0] != "ok":
+        raise common.Infra(f"adev-det2 rejected its input: {r}")
+    return r
+
+
+def rich_case(G, ctx, name, prog, out, kinds, vals, tans, proved=None):
+    """one program of the richer language: expectation(f).jvp_estimate vs the Lean model (Cfg.code) and vs jax.jvp"""
+    import jax
+    import jax.numpy as jnp
+    import genjax.adev as A
+    from fractions import Fraction as Fr
+    f = D.build_jax(prog, out)
+    args = tuple(jnp.float32(float(v)) if k == "f" else jnp.int32(int(v)) for k, v in zip(kinds, vals))
+    jt = tuple(jnp.float32(float(t)) if k == "f" else np.zeros((), dtype=jax.dtypes.float0) for k, t in zip(kinds, tans))
+    text = sexp.dumps(D.to_sexp(prog))
+    case = {"kind": "rich-program", "name": name, "program": text, "out": out, "kinds": "".join(kinds),
+            "values": [str(v) for v in vals], "tangents": [str(t) for t in tans]}
+    r = _model2("code", prog, out, D.env_sexp(kinds, vals, tans))
+    mv, md = float(Fr(r[1][1])), float(Fr(r[1][2]))
+    jv, jd = float(Fr(r[2][1])), float(Fr(r[2][2]))
+    if r[3] != "T" or r[4] != "T" or r[5] != "T":
+        ctx.correspondence_break("Adev2 driver self-check (adevRun = jvpRun under Cfg.code, CPS = direct style, discrete entries carry float0)",
+                                 str(r[:6]), case)
+    if proved is not None and (Fr(r[1][1]), Fr(r[1][2])) != proved:
+        ctx.correspondence_break("Adev2 driver vs the proved witness value (Proofs/AdevDet2Table.lean)", f"driver {r[1]} proved {proved}", case)
+    try:
+        want_p, want_t = jax.jvp(f, args, jt)
+        want_p, want_t = float(want_p), float(want_t)
+    except Exception as ex:
+        ctx.count("rich:jax-raised")
+        return
+    tolm = lambda m: 1e-4 * (1 + abs(m))
+    if abs(jv - want_p) > tolm(jv) or abs(jd - want_t) > tolm(jd):
+        ctx.correspondence_break("Adev2.jvpRun (the table's JVP rules) vs jax.jvp", f"model ({jv},{jd}) jax.jvp ({want_p},{want_t})", case)
+    try:
+        d = A.expectation(f).jvp_estimate(*[A.Dual(a, t) for a, t in zip(args, jt)])
+        gp, gt = float(d.primal), float(d.tangent)
+    except Exception as ex:
+        ctx.property_failure(None, f"{name}: jvp_estimate raised {type(ex).__name__}: {str(ex)[:160]}", case)
+        impl.reset_handlers()
+        return
+    if abs(mv - gp) > tolm(mv) or abs(md - gt) > tolm(md):
+        which = []
+        for cfg in ("any", "discrete-out"):
+            o = _model2(cfg, prog, out, D.env_sexp(kinds, vals, tans))[1]
+            if abs(float(Fr(o[1])) - gp) <= tolm(gp) and abs(float(Fr(o[2])) - gt) <= tolm(gt):
+                which.append(cfg)
+        ctx.correspondence_break("Adev2.adevRun Cfg.code vs expectation(f).jvp_estimate",
+                                 f"model ({mv},{md}) impl ({gp},{gt})" + (f"; the implementation matches Cfg {'/'.join(which)}" if which else ""), case)
+    tol = lambda w: 2e-4 * (1 + abs(w))
+    if abs(gp - want_p) > tol(want_p) or abs(gt - want_t) > tol(want_t):
+        ctx.property_failure(None, f"{name}: jvp_estimate ({gp}, {gt}) != jax.jvp ({want_p}, {want_t}) on a program of the richer language", case)
+    ctx.case(sample={"kind": "rich-program", "program": text[:300]} if ctx.coverage["evaluations"] % 9 == 0 else None,
+             nontrivial_key=("rich", text, json.dumps(case["values"]), json.dumps(case["tangents"])))
+    ctx.count("rich-program")
+    for key in D.shape(prog, kinds):
+        ctx.count("rich:" + key)
+    if "i" in kinds:
+        ctx.count("rich:int-input")
+    if any(k == "f" and t == 0 for k, t in zip(kinds, tans)):
+        ctx.count("rich:zero-tangent-input")
+
+
+def rich_witnesses(G, ctx):
+    """the proved counterexample programs of Proofs/AdevDet2Table.lean, replayed on the implementation (which must agree with Cfg.code)"""
+    for name, prog, out, kinds, vals, tans, proved in D.WITNESSES:
+        rich_case(G, ctx, "witness:" + name, prog, out, list(kinds), vals, tans, proved=proved)
+
+
+def rich_random(G, ctx, rng):
+    from fractions import Fraction as Fr
+    for _try in range(60):
+        kinds = list("ffi") if rng.random() < 0.4 else list("ff")
+        prog = D.gen_prog(rng, kinds, 2, rng.randint(4, 9))
+        vals = [Fr(2 * rng.randint(-7, 6) + 1, 8) if k == "f" else rng.randint(-1, 3) for k in kinds]
+        if not D.interp_safe(prog, kinds):
+            ctx.count("rich:rejected-known-interpreter-limits")
+            continue
+        try:
+            env = D.eval_frac(prog, vals)
+        except D.IllConditioned as ex:
+            ctx.count("rich:rejected-ill-conditioned")
+            continue
+        tans = [rng.choice([Fr(1), Fr(1, 2), Fr(-1), Fr(0)]) if k == "f" else None for k in kinds]
+        if all(t in (None, 0) for t in tans):
+            tans[0] = Fr(1)
+        rich_case(G, ctx, "random", prog, len(env) - 1, kinds, vals, tans)
+        return
+
+
+def interpreter_limits(G, ctx):
+    """Deterministic programs that jax.jvp differentiates but the ADEV interpreter does not handle (open findings of C15, each a loud
+    exception; found while extending the model to multi-output equations / cond / loops).  A listed finding is recognised only by its
+    exception type; if the program runs, its value and tangent are compared with jax.jvp like any other."""
+    import jax
+    import jax.numpy as jnp
+    A = G.adev if hasattr(G, "adev") else __import__("genjax.adev", fromlist=["x"])
+
+    def f_two(x):
+        a, b = jax.lax.cond(x > 0.5, lambda: (x * 2.0, x * x), lambda: (x, x + 1.0))
+        return a + b
+
+    def f_ident(x):
+        return jax.lax.cond(x > 0.5, lambda z: z, lambda z: z, x) * 3.0
+
+    def f_lit(x):
+        return jax.lax.cond(x > 0.5, lambda c: x * c, lambda c: x + c, 2.0)
+
+    def f_int(x):
+        @jax.jit
+        def h(y):
+            return (jnp.floor(y).astype(jnp.int32), y * y)
+        i, v = h(x)
+        (i2, v2), _ = jax.lax.scan(lambda c, t: ((c[0] + 1, c[1] * 1.5), t), (i, v), jnp.arange(2.0))
+        return v2 + i2.astype(jnp.float32) * 0.0
+
+    table = [("lax.cond with two outputs", f_two, "adev-cond-output-count", ValueError),
+             ("lax.cond whose branches return their operand unchanged (0 outputs after forwarding)", f_ident, "adev-cond-output-count", ValueError),
+             ("lax.cond with a constant (literal) operand", f_lit, "adev-cond-literal-operand", TypeError),
+             ("integer output of a jitted helper carried through a scan", f_int, "adev-pjit-int-tangent", TypeError)]
+    for name, f, cls, exc in table:
+        case = {"kind": "interpreter-limit", "program": name, "x": 0.7}
+        want_p, want_t = jax.jvp(f, (jnp.float32(0.7),), (jnp.float32(1.0),))
+        try:
+            d = A.expectation(f).jvp_estimate(A.Dual(jnp.float32(0.7), jnp.float32(1.0)))
+            if abs(float(d.primal) - float(want_p)) > 1e-5 or abs(float(d.tangent) - float(want_t)) > 1e-5:
+                ctx.property_failure(None, f"{name}: jvp_estimate gives ({float(d.primal)}, {float(d.tangent)}), jax.jvp ({float(want_p)}, {float(want_t)})", case)
+        except Exception as ex:
+            impl.reset_handlers()
+            ctx.property_failure(cls, f"{name}: jvp_estimate raises {type(ex).__name__} ({str(ex)[:100]}) on a deterministic program that jax.jvp differentiates",
+                                 {**case, "error": type(ex).__name__}, matches_asis=isinstance(ex, exc))
+        ctx.case(nontrivial_key=("interpreter-limit", name))
+        ctx.count("interpreter-limit")
+
+
 def run(ctx, audit):
     G = impl.load()
     rng = ctx.rng
+    interpreter_limits(G, ctx)
     for name, f, shapes in corpus():
         for rep in range(3 if ctx.thorough else 1):
             check_one(G, ctx, name, f, shapes, rng)
     for _ in range(60 if ctx.thorough else 15):
         straight_line_model(G, ctx, rng)
+    rich_witnesses(G, ctx)
+    for _ in range(300 if ctx.thorough else 50):
+        rich_random(G, ctx, rng)
     return {"rule": RULE}
 
 
@@ -165,11 +313,20 @@ def replay(ctx, payload):
     G = impl.load()
     c = payload.get("case") or {}
     rng = random.Random(0)
+    if c.get("kind") == "rich-program":
+        from fractions import Fraction as Fr
+        kinds = list(c["kinds"])
+        rich_case(G, ctx, c.get("name", "replay"), D.from_sexp(sexp.loads(c["program"])), int(c["out"]), kinds,
+                  [Fr(v) for v in c["values"]], [None if t == "None" else Fr(t) for t in c["tangents"]])
     for name, f, shapes in corpus():
+        if c.get("kind") == "rich-program":
+            break
         if name == c.get("program") or c.get("kind") != "det-program":
             check_one(G, ctx, name, f, shapes, rng)
     for i in ctx.issues:
         print("REPRODUCED:", i["what"])
+    for b in ctx.corr_breaks:
+        print("CORRESPONDENCE:", b["name"], "-", b["what"])
     if not ctx.issues:
         print("not reproduced")
     return 1 if ctx.issues else 0
